@@ -647,3 +647,126 @@ def resolve_locals(fi, t, at_cfg_node, tm, only_calls=False, depth=3):
             return tuple(rec(y) for y in x)
         return x
     return rec(t)
+
+
+# ------------------------------------------------------------------------------------------------- parameter aliasing
+VIEW_CALLS = {"asarray", "asanyarray", "ravel", "reshape", "squeeze", "atleast_1d", "atleast_2d", "view", "transpose", "swapaxes"}
+MUTATOR_METHODS = {"sort", "fill", "resize", "put", "itemset", "partition", "setfield", "append", "extend", "insert", "pop", "remove",
+                   "clear", "reverse", "update"}
+
+
+def sequence_params(fi):
+    """parameters (other than self) that the function itself treats as sequences / arrays: subscripted, iterated, measured with
+    len(), or handed to a numpy view / conversion call"""
+    out = set()
+    params = [p for p in fi.params if p != fi.self_name]
+    a_ = fi.node.args
+    for arg in a_.posonlyargs + a_.args + a_.kwonlyargs:
+        if arg.arg in params and arg.annotation is not None and any(
+                isinstance(x, (ast.Name, ast.Attribute)) and (x.id if isinstance(x, ast.Name) else x.attr) in ("Sequence", "List", "ndarray", "Iterable", "MutableSequence")
+                for x in ast.walk(arg.annotation)):
+            out.add(arg.arg)
+    for n in walk_local(fi.node):
+        if isinstance(n, ast.Subscript) and isinstance(n.value, ast.Name) and n.value.id in params:
+            out.add(n.value.id)
+        elif isinstance(n, (ast.For, ast.comprehension)) and isinstance(n.iter, ast.Name) and n.iter.id in params:
+            out.add(n.iter.id)
+        elif isinstance(n, ast.Call):
+            fn = n.func.attr if isinstance(n.func, ast.Attribute) else (n.func.id if isinstance(n.func, ast.Name) else None)
+            if fn in VIEW_CALLS | {"len", "enumerate", "zip", "array", "sum", "inner", "dot"}:
+                for a in n.args:
+                    if isinstance(a, ast.Name) and a.id in params:
+                        out.add(a.id)
+    return out
+
+
+def parameter_aliases(fi, roots=None):
+    """{local or parameter name: root parameter} for names that may denote the caller's object (or a view of it): the parameter
+    itself, `n = p`, `n = p[a:b]` (basic slice = view), `n = np.asarray(p)` / reshape / ravel / .T (no copy when p is an array)."""
+    roots = set(sequence_params(fi) if roots is None else roots)
+    alias = {p: p for p in roots}
+
+    def root_of(e):
+        if isinstance(e, ast.Name):
+            return alias.get(e.id)
+        if isinstance(e, ast.Subscript):
+            sl = e.slice
+            parts = sl.elts if isinstance(sl, ast.Tuple) else [sl]
+            if any(isinstance(p_, ast.Slice) for p_ in parts):
+                return root_of(e.value)
+            return None
+        if isinstance(e, ast.Attribute) and e.attr == "T":
+            return root_of(e.value)
+        if isinstance(e, ast.Call):
+            fn = e.func.attr if isinstance(e.func, ast.Attribute) else (e.func.id if isinstance(e.func, ast.Name) else None)
+            if fn in VIEW_CALLS:
+                if isinstance(e.func, ast.Attribute) and not (isinstance(e.func.value, ast.Name) and e.func.value.id in ("np", "numpy")):
+                    return root_of(e.func.value)            # p.reshape(...)
+                return root_of(e.args[0]) if e.args else None
+        return None
+    changed = True
+    while changed:
+        changed = False
+        for st in walk_local(fi.node):
+            if isinstance(st, ast.Assign) and len(st.targets) == 1 and isinstance(st.targets[0], ast.Name):
+                r = root_of(st.value)
+                if r is not None and alias.get(st.targets[0].id) is None:
+                    alias[st.targets[0].id] = r
+                    changed = True
+    return alias
+
+
+def inplace_modifications_of_parameters(fi, roots=None):
+    """[(stmt, name, root parameter, how)]: statements that modify, in place, an object that may be the caller's"""
+    alias = parameter_aliases(fi, roots)
+    out = []
+    for st in walk_local(fi.node):
+        if isinstance(st, ast.AugAssign):
+            t = st.target
+            base = t
+            while isinstance(base, ast.Subscript):
+                base = base.value
+            if isinstance(base, ast.Name) and base.id in alias:
+                out.append((st, base.id, alias[base.id], "augmented assignment"))
+        elif isinstance(st, ast.Assign):
+            for t in st.targets:
+                for el in (t.elts if isinstance(t, (ast.Tuple, ast.List)) else [t]):
+                    if isinstance(el, ast.Subscript):
+                        base = el
+                        while isinstance(base, ast.Subscript):
+                            base = base.value
+                        if isinstance(base, ast.Name) and base.id in alias:
+                            out.append((st, base.id, alias[base.id], "element store"))
+        for c in ([x for x in ast.walk(st) if isinstance(x, ast.Call)] if isinstance(st, (ast.Expr, ast.Assign, ast.AugAssign, ast.Return)) else []):
+            for k in c.keywords:
+                if k.arg == "out" and isinstance(k.value, ast.Name) and k.value.id in alias:
+                    out.append((st, k.value.id, alias[k.value.id], "out= argument"))
+            if isinstance(c.func, ast.Attribute) and c.func.attr in MUTATOR_METHODS and isinstance(c.func.value, ast.Name) and c.func.value.id in alias \
+                    and isinstance(st, ast.Expr) and st.value is c:
+                out.append((st, c.func.value.id, alias[c.func.value.id], "mutator call .%s()" % c.func.attr))
+    # a name that is (also) bound to a fresh object somewhere is not counted: which object is modified would need path sensitivity
+    tm = terms_of(fi)
+    keep = []
+    for (st, nm, root, how) in out:
+        bs = [b for b in tm.env.bindings.get(nm, []) if b.kind not in ("param", "aug")]
+        if all(b.kind == "assign" and b.value is not None and parameter_aliases_root(fi, b.value, alias) is not None for b in bs):
+            keep.append((st, nm, root, how))
+    return keep
+
+
+def parameter_aliases_root(fi, e, alias):
+    if isinstance(e, ast.Name):
+        return alias.get(e.id)
+    if isinstance(e, ast.Subscript):
+        sl = e.slice
+        parts = sl.elts if isinstance(sl, ast.Tuple) else [sl]
+        return parameter_aliases_root(fi, e.value, alias) if any(isinstance(p_, ast.Slice) for p_ in parts) else None
+    if isinstance(e, ast.Attribute) and e.attr == "T":
+        return parameter_aliases_root(fi, e.value, alias)
+    if isinstance(e, ast.Call):
+        fn = e.func.attr if isinstance(e.func, ast.Attribute) else (e.func.id if isinstance(e.func, ast.Name) else None)
+        if fn in VIEW_CALLS:
+            if isinstance(e.func, ast.Attribute) and not (isinstance(e.func.value, ast.Name) and e.func.value.id in ("np", "numpy")):
+                return parameter_aliases_root(fi, e.func.value, alias)
+            return parameter_aliases_root(fi, e.args[0], alias) if e.args else None
+    return None
